@@ -88,7 +88,7 @@ package nsqd
 //                           always covered by a timeout);
 //  [counted-before-send]    the connection's in-flight counter has been bumped since the last delivery (C03).
 //@ func (p *protocolV2) SendMessage(client *clientV2, msg *Message) error
-//@   props C03 C01 C02
+//@   props C03 C01 C02 C05
 //@   nochan
 //@   requires p != nil && p.nsqd != nil && lConnOK(client) && msg != nil
 //@   requires[deliver-guard] lReady && lReadyFor == client
@@ -113,7 +113,7 @@ package nsqd
 
 // ---- the delivery pump ----------------------------------------------------------------------------
 //@ func (p *protocolV2) messagePump(client *clientV2, startedChan chan bool)
-//@   props C03 C01 C02
+//@   props C03 C01 C02 C05
 //@   requires p != nil && p.nsqd != nil && lConnOK(client)
 //   typing fact (Attempts is a uint16; the engine assumes type ranges only for values the code loads)
 //@   requires[typing] lWatchMsg != nil ==> 0 <= lWatchMsg.Attempts && lWatchMsg.Attempts < 65536
